@@ -2149,5 +2149,64 @@ theorem triviaTotal_of_progress (hf : g.fusedSkip = none)
       simp only [skip, ha, Bool.false_eq_true, ↓reduceIte, hf, hn]
       exact hl
 
+/-! ### helpers for concrete instances -/
+
+/-- a decidable sufficient condition for `NeverAt` -/
+theorem neverAt_of_all {c : CP} {rest : Str} (h : inp.all (fun d => d != c) = true) :
+    NeverAt inp (c :: rest) := by
+  apply neverAt_of_head
+  intro i hi
+  rw [Array.all_eq_true] at h
+  obtain ⟨hlt, he⟩ := Array.getElem?_eq_some_iff.1 hi
+  have := h i hlt
+  simp [he] at this
+
+/-- grammars given rule by rule -/
+theorem GrammarRel.of_rules {B : Expr → Expr → Prop} {g g' : Grammar} (hu : g'.usets = g.usets)
+    (h : All2 (fun r r' : Rule => r.name = r'.name ∧ r.mod = r'.mod ∧ Cong B r.body r'.body) g.rules g'.rules) :
+    GrammarRel B g g' := by
+  refine ⟨hu, fun n => ?_⟩
+  unfold Grammar.lookup
+  induction h with
+  | nil => trivial
+  | @cons r r' rs rs' hr _ ih =>
+    simp only [List.find?_cons, ← hr.1]
+    cases (r.name == n) with
+    | true => exact hr
+    | false => exact ih
+
+theorem startsWithAt_bound : ∀ (x : Str) (p : Nat), startsWithAt inp x p = true → p + x.length ≤ inp.size
+  | [], p, h => by simpa [startsWithAt] using h
+  | c :: rest, p, h => by
+    simp only [startsWithAt, Bool.and_eq_true] at h
+    have := startsWithAt_bound rest (p + 1) h.2
+    simp only [List.length_cons]; omega
+
+theorem tryProgress_none : TryProgress g inp none :=
+  fun _ => ⟨.no, ⟨0, rfl, by simp⟩, trivial⟩
+
+/-- a trivia rule whose body is a non-empty literal makes progress -/
+theorem tryProgress_str (rl : Rule) (c : CP) (cs : Str) (hb : rl.body = .str (c :: cs)) :
+    TryProgress g inp (some rl) := by
+  intro s
+  by_cases hm : startsWithAt inp (c :: cs) s.pos = true
+  · have hw : ∃ out ps, ruleWrap rl.name rl.mod s
+        (adv { s with atomic := ruleAtomic rl.name rl.mod s.atomic } (c :: cs).length) [] = .ok out ps ∧
+        out.pos = s.pos + (c :: cs).length := by
+      unfold ruleWrap
+      by_cases hS : hasBit rl.mod SILENT = true
+      · exact ⟨_, _, by simp only [hS, ↓reduceIte], rfl⟩
+      · exact ⟨_, _, by simp only [hS, Bool.false_eq_true, ↓reduceIte], rfl⟩
+    obtain ⟨out, ps, hw, hp⟩ := hw
+    refine ⟨.matched out ps, ⟨1, ?_, by simp⟩, ?_⟩
+    · show trySkip (step g inp 0 (run g inp 0)) (some rl) s = _
+      simp only [trySkip, ruleApply, hb, step, hm, ↓reduceIte, hw]
+    · have := startsWithAt_bound (c :: cs) s.pos hm
+      simp only [List.length_cons] at this hp
+      simp only [hp]; omega
+  · refine ⟨.no, ⟨1, ?_, by simp⟩, trivial⟩
+    show trySkip (step g inp 0 (run g inp 0)) (some rl) s = _
+    simp only [trySkip, ruleApply, hb, step, hm, Bool.false_eq_true, ↓reduceIte]
+
 end L0
 end Pest
